@@ -139,6 +139,11 @@ func (w *world) oracle(skip bool) {
 			if d.Handle >= 0 && d.Handle < t0 {
 				t0 = d.Handle
 			}
+			// a download that was completely over before the call went from its cache miss to the remote path is not one
+			// the call can have waited for: its failure is nobody's excuse but that of the calls that did wait
+			if c.MissRelease >= 0 && d.finish() >= 0 && d.finish() < c.MissRelease {
+				continue
+			}
 			switch d.Outcome {
 			case "ok", "badkty":
 			case "ctxseen":
